@@ -62,7 +62,9 @@ pub fn near(rng: &mut Rng, cur: f64) -> f64 {
     if cur == 0.0 { return *rng.pick(&[5e-324, 1e-300, 1e-17, 2.2e-16, -5e-324]); }
     let k = rng.range(1, 3) as u64;
     let b = cur.to_bits();
-    f64::from_bits(if rng.chance(0.5) { b + k } else { b - k })
+    // (a stored value within three steps of zero has no lower neighbours of the same sign: stay on the value then)
+    let nb = if rng.chance(0.5) { b.checked_add(k) } else { b.checked_sub(k) };
+    match nb.map(f64::from_bits) { Some(x) if x.is_finite() && (x.is_sign_negative() == cur.is_sign_negative()) => x, _ => cur }
 }
 
 /// apply one random setter; returns its protocol text
